@@ -480,9 +480,11 @@ func runC05(c *Ctx) {
 		// the path is relative
 		okShape := false
 		guard := false
+		wdAll := true
 		{
 			sawParam, sawJoin, other := false, false, false
 			guardAll := true
+			wdAll = true
 			for _, rl := range returnLeaves(tl, 0) {
 				if pr, ok := rl.v.(*ssa.Parameter); ok && len(tl.Params) > 1 && pr == tl.Params[1] {
 					sawParam = true
@@ -499,13 +501,27 @@ func runC05(c *Ctx) {
 				for cv, truth := range edgeConds(call.Block(), nil) {
 					conds[cv] = truth
 				}
+				hasWD := false
 				for cv, truth := range conds {
 					if ic, ok := cv.(*ssa.Call); ok && callIs(&ic.Call, "path.IsAbs") && !truth && len(tl.Params) > 1 && ic.Call.Args[0] == ssa.Value(tl.Params[1]) {
 						g = true
 					}
+					// … and only when a working directory is configured: path.Join("", p) is path.Clean(p)
+					if bo, ok := cv.(*ssa.BinOp); ok && (bo.Op == token.NEQ || bo.Op == token.EQL) {
+						if s, isS := constString(bo.Y); isS && s == "" {
+							for _, lf := range leavesOf(bo.X) {
+								if lf.Kind == leafFieldLoad && lf.Field == "workDir" && (bo.Op == token.NEQ) == truth {
+									hasWD = true
+								}
+							}
+						}
+					}
 				}
 				if !g {
 					guardAll = false
+				}
+				if !hasWD {
+					wdAll = false
 				}
 			}
 			okShape = sawParam && sawJoin && !other
@@ -522,6 +538,8 @@ func runC05(c *Ctx) {
 		})
 		c.check(!cleans, "R4", "relative paths are resolved by the file system, not lexically", p.Pos(tl.Pos()), "workDir + \"/\" + p",
 			"toLocalPath cleans the joined path lexically: for a directory symlink l, \"l/../f\" names workDir/f instead of the f next to l's target (Remove deletes the wrong file), \"missing/../f\" exists, \"f/\" is a file")
+		c.check(wdAll, "R4", "paths are joined only when a working directory is set", p.Pos(tl.Pos()), "join guarded by workDir != \"\"",
+			"without a working directory the path is still passed through path.Join, which cleans it lexically: \"link/\" loses its slash (Lstat sees the link, not the directory), \"link/../f\" and \"missing/..\" resolve without the file system being asked")
 		c.check(guard, "R4", "only relative paths are joined", p.Pos(tl.Pos()), "join guarded by !path.IsAbs(p)", "absolute paths are no longer passed through unchanged (or relative ones are not resolved against the working directory)")
 	}
 }
@@ -1394,7 +1412,7 @@ func checkRemoveAllLikeOs(c *Ctx, rule string, fn *ssa.Function, isPath func(ssa
 	})
 	if probe != nil {
 		arg := probe.Call.Args[len(probe.Call.Args)-1]
-		trimmed := false
+		trimmed, trimmedOnce := false, false
 		if arg != ssa.Value(pathP) && isPath(arg) {
 			// some edge of it is a slice of the parameter that drops its last byte, taken where that byte is '/'
 			for _, l := range leavesOfIface(arg) {
@@ -1403,6 +1421,10 @@ func checkRemoveAllLikeOs(c *Ctx, rule string, fn *ssa.Function, isPath func(ssa
 						if bo, ok := cv.(*ssa.BinOp); ok && bo.Op == token.EQL && truth {
 							if k, ok := constInt(bo.Y); ok && k == '/' {
 								trimmed = true
+								// every trailing slash, not just one: the cut is made in a loop
+								if innermostLoop(loopsOf(fn), sl.Block()) == nil {
+									trimmedOnce = true
+								}
 							}
 						}
 					}
@@ -1410,9 +1432,16 @@ func checkRemoveAllLikeOs(c *Ctx, rule string, fn *ssa.Function, isPath func(ssa
 			}
 		}
 		for _, l := range leavesOf(arg) {
-			if l.Kind == leafCallResult && (callIs(l.Call, "strings.TrimRight") || callIs(l.Call, "strings.TrimSuffix")) {
+			if l.Kind == leafCallResult && callIs(l.Call, "strings.TrimRight") {
 				trimmed = true
 			}
+			if l.Kind == leafCallResult && callIs(l.Call, "strings.TrimSuffix") {
+				trimmed, trimmedOnce = true, true
+			}
+		}
+		if trimmed {
+			c.check(!trimmedOnce, rule, "RemoveAll cuts off every trailing slash", p.Pos(probe.Pos()), "the cut is repeated while the name ends in a slash",
+				"only one trailing slash is cut off: for \"link//\" the name still ends in a slash, the file system follows the link, the target directory is emptied and the call then fails (os.RemoveAll removes only the link)")
 		}
 		c.check(trimmed, rule, "RemoveAll works on the name (trailing slashes cut off)", p.Pos(probe.Pos()), "path without trailing slashes",
 			"RemoveAll looks at path as given: for \"link/\", a symlink to a directory named with a trailing slash, the file system follows the link, the target directory is emptied and the call then fails (os.RemoveAll removes only the link)")
